@@ -12,7 +12,7 @@ from .. import core
 
 THEOREM_FILES = ["Properties/C19.lean"]
 KEYS = ["exit", "out", "id", "ofile"]
-KINDS = {"exit", "stdout", "stderr", "id", "rows", "F17", "F26"}
+KINDS = {"exit", "stdout", "stderr", "id", "rows", "columns", "channel", "F17", "F26"}
 MANY_J = ",".join(["pj"] * 6)
 MANY_C = ",".join(["pc"] * 5)
 
@@ -56,7 +56,7 @@ def cases(chk):
     L.append(cc.line("syntax", "file", "json", out="new", k=K()))
     L.append(cc.line("valid", "file", "json", fault="echo", out="new", k=K()))
     # E. random combinations
-    for _ in range(20 if not thorough else 400):
+    for _ in range(20 if not thorough else 1200):
         channel = rng.choice(["file", "stdin"])
         cls = rng.choice(cc.FILE_CLASSES if channel == "file" else cc.STDIN_CLASSES)
         ur = rng.choice(["-", "-", "pj", "pc", "pb", "sj", "pj,pc,pb", MANY_J])
